@@ -152,26 +152,26 @@ def idsStr (tag : String) (l : List Nat) : String :=
 def observe (arr : Array (Node Nat)) : String :=
   let g := ofArr arr
   let js := List.range arr.size
-  s!"v {natsStr (js.map (val g))} n {natsStr (js.map (ver g))} s {natsStr (js.map fun j => if Outdated g j then 0 else 1)}"
+  s!"v {natsStr (js.map (val g))} n {natsStr (js.map (ver g))} s {natsStr (js.map fun j => if Outdated (arr.size+1) g j then 0 else 1)}"
 
 /-- one op on the model: new table and the block printed for it -/
 def stepBlock (arr : Array (Node Nat)) (op : Op Nat) : Array (Node Nat) × String :=
   let N := arr.size
   match op with
   | .read i =>
-    match step? (ofArr arr) (.read i) with
+    match step? (arr.size+1) (ofArr arr) (.read i) with
     | none => (arr, s!"panic {observe arr} x 0 y 0 |")
     | some (g1, l1) =>
       let a1 := toArr N g1
       let v1 := val (ofArr a1) i
-      match step? (ofArr a1) (.read i) with
+      match step? (arr.size+1) (ofArr a1) (.read i) with
       | none => (arr, s!"panic {observe arr} x 0 y 0 |")
       | some (g2, l2) =>
         let a2 := toArr N g2
         let v2 := val (ofArr a2) i
         (a2, s!"ok r {v1} {v2} {observe a2} {idsStr "x" (l1.map (·.1))} {idsStr "y" (l2.map (·.1))} |")
   | op =>
-    match step? (ofArr arr) op with
+    match step? (arr.size+1) (ofArr arr) op with
     | none => (arr, s!"panic {observe arr} x 0 y 0 |")
     | some (g1, _) =>
       let a1 := toArr N g1
@@ -189,27 +189,12 @@ def isRead : Op Nat → Option Nat
   | .read i => some i
   | _ => none
 
-/-- number of dependency paths below each node (= cost of `evalSpec` without memo) -/
-def pathCosts (arr : Array (Node Nat)) : Array Nat :=
-  arr.foldl (fun cost n =>
-    match n with
-    | .param _ _ => cost.push 1
-    | .struct s => cost.push (1 + (s.deps.map fun d => cost[d]?.getD 1).sum)) #[]
-
-/-- `Spec g j` for every node.  `PolyVerif.Nodes.Spec` re-evaluates shared subgraphs once per path.
-    The harness keeps the total number of dependency paths of a graph ≤ 1500 (the real `Outdated()`
-    walks every path too), so with `specLim = 2000` every entry is a literal call of `Spec`; the
-    other branch (the node's `fn` applied to the table entries of its dependencies, all of smaller
-    id) only keeps the driver responsive on a hand-written replay line with a huge path count. -/
-def specTable (lim : Nat) (arr : Array (Node Nat)) : Array Nat :=
+/-- `Spec F g j` for every node (a literal call of `PolyVerif.Nodes.Spec` with fuel `N+1`; the
+    harness keeps the number of dependency paths of a graph ≤ 1500, the real `Outdated()` walks
+    every path too) -/
+def specTable (_lim : Nat) (arr : Array (Node Nat)) : Array Nat :=
   let g := ofArr arr
-  let cost := pathCosts arr
-  (List.range arr.size).foldl (fun tab j =>
-    match g j with
-    | .struct s =>
-      if cost[j]?.getD 0 ≤ lim then tab.push (Spec g j)
-      else tab.push (s.fn s.scalars s.arrays (s.deps.map fun d => tab[d]?.getD 0))
-    | .param x _ => tab.push x) #[]
+  ((List.range arr.size).map fun j => Spec (arr.size+1) g j).toArray
 
 def specLim : Nat := 2000
 
@@ -229,7 +214,7 @@ def holdsFresh (c : Case) (bs : List Block) : Bool :=
         shape && okRead && cached sp b && go gw sp ops bs
       | none =>
         if b.ok then
-          match step? (ofArr gw) op with
+          match step? (N+1) (ofArr gw) op with
           | some (g1, _) =>
             let gw1 := toArr N g1
             let sp1 := specTable specLim gw1
@@ -266,10 +251,10 @@ def holdsNoSpurious (c : Case) (bs : List Block) : Bool :=
       | .setParam p _ =>
         let quiet := b.x.isEmpty && b.y.isEmpty
         if b.ok then
-          match step? (ofArr gw) op with
+          match step? (N+1) (ofArr gw) op with
           | some (g1, _) =>
             let gw1 := toArr N g1
-            let add := (List.range N).filter fun j => isStruct gw1 j && inCone (j+1) (ofArr gw1) j p
+            let add := (List.range N).filter fun j => isStruct gw1 j && inCone (N+1) (ofArr gw1) j p
             quiet && go gw1 (dirty ++ add.filter (!dirty.contains ·)) ops bs
           | none => false
         else quiet && go gw dirty ops bs
@@ -281,10 +266,10 @@ def holdsNoSpurious (c : Case) (bs : List Block) : Bool :=
           | _ => 0
         let quiet := b.x.isEmpty && b.y.isEmpty
         if b.ok then
-          match step? (ofArr gw) op with
+          match step? (N+1) (ofArr gw) op with
           | some (g1, _) =>
             let gw1 := toArr N g1
-            let add := (List.range N).filter fun j => isStruct gw1 j && inCone (j+1) (ofArr gw1) j k
+            let add := (List.range N).filter fun j => isStruct gw1 j && inCone (N+1) (ofArr gw1) j k
             quiet && go gw1 (dirty ++ add.filter (!dirty.contains ·)) ops bs
           | none => false
         else quiet && go gw dirty ops bs
